@@ -72,8 +72,6 @@ def same_identifier(
         if rt.concrete() and str(t1.__xpm__.job.relpath) != str(t2.__xpm__.job.relpath):
             rt.note("FAIL: job directory differs", t1.__xpm__.job.relpath, t2.__xpm__.job.relpath)
             ok = False
-    if n_old == 0:
-        return True  # this skeleton does not use the replaced classes (vacuous path)
     return fin(ok)
 
 
